@@ -165,7 +165,10 @@ func compileBinaryMultiplicative(
 
 func compileBinaryRelational(ctx context.Context[parser.IRelationalExpressionContext]) (types.Type, error) {
 	adds := ctx.AST.AllAdditiveExpression()
-	leftType, err := compileAdditive(context.Child(ctx, adds[0]))
+	// The hint describes what the enclosing construct expects from the comparison's *result*;
+	// it says nothing about the operands, so it must not reach the left operand (a literal
+	// there would be typed by it: `v u8 := 0 < x_i64`, `i8(0 == x_i64)`).
+	leftType, err := compileAdditive(context.Child(ctx, adds[0]).WithHint(types.Type{}))
 	if err != nil {
 		return types.Type{}, err
 	}
@@ -216,7 +219,7 @@ func compileBinaryRelational(ctx context.Context[parser.IRelationalExpressionCon
 
 func compileBinaryEquality(ctx context.Context[parser.IEqualityExpressionContext]) (types.Type, error) {
 	rels := ctx.AST.AllRelationalExpression()
-	leftType, err := compileRelational(context.Child(ctx, rels[0]))
+	leftType, err := compileRelational(context.Child(ctx, rels[0]).WithHint(types.Type{}))
 	if err != nil {
 		return types.Type{}, err
 	}
